@@ -164,7 +164,7 @@ def run_check(prop, tier):
             try:
                 with common.time_limit(120):
                     still = findings.replay(k['id'])
-            except Exception:
+            except (Exception, common.ImplTimeout):
                 still = None
                 rep.notes.append('known finding %s replay crashed: %s' % (k['id'], traceback.format_exc()[-500:]))
             if still:
